@@ -173,8 +173,8 @@ Definition api_fp (t : thread) (st : astate) (a : api) : list loc * list assign 
       ([sloc t o; pl t st o; gTables], [(sloc t d, f_struct); (ownp t d, f_out)])
   | AEncode o d | AEncodeSW o d =>
       ([sloc t o; pl t st o], [(sloc t o, f_touch); (sloc t d, f_struct); (ownp t d, f_out)])
-  | ASamples o d =>
-      ([sloc t o], [(sloc t d, f_struct)])
+  | ASamples o d =>   (* GetFullSamples calls trun.AddSampleDefaultValues: it updates the fragment it reads *)
+      ([sloc t o], [(sloc t o, f_touch); (sloc t d, f_struct)])
   | AEncrypt o | ADecrypt o =>
       ([sloc t o; pl t st o; gTables], [(sloc t o, f_touch); (pl t st o, f_crypt)])
   | AToByteStream o | AToNaluSample o =>
